@@ -637,9 +637,11 @@ pub fn interface_program(r: &mut Rng, collide: bool) -> IfaceProgram {
     let ntx = 1 + r.below(3) as usize;
     let mut txs = vec![];
     // transaction names that differ only in case are different transactions
-    let names: Vec<&str> = match r.below(4) {
+    let names: Vec<&str> = match r.below(6) {
         0 => vec!["Pay", "pay", "PAY"],
         1 => vec!["Pay", "Refund", "refund"],
+        // the very same name twice
+        2 => vec!["Pay", "Pay", "Refund"],
         _ => vec!["Pay", "Refund", "Sweep"],
     };
     for (k, name) in names.iter().take(ntx).enumerate() {
